@@ -91,7 +91,7 @@ func Extract(repo string) (ints []uint64, toks [][]byte, err error) {
 			seenI[uint64(-i)] = true
 		}
 	}
-	for _, pkg := range []string{"common", "openflow13", "protocol", "util"} {
+	for _, pkg := range []string{"common", "ofbase", "openflow13", "protocol", "util"} {
 		files, _ := filepath.Glob(filepath.Join(repo, pkg, "*.go"))
 		sort.Strings(files)
 		for _, f := range files {
